@@ -386,6 +386,16 @@ def check_guards(project: Project, rep):
         rep.unmodelled("KN-REGIME", fi, f, "series/expansion split not found")
 
 
+def def_deps_of(cfg, d, name):
+    for nd in cfg.nodes:
+        if nd.id == d:
+            for nm, a in cfg.defs_of(nd):
+                val = getattr(a, "value", None)
+                if nm == name and val is not None:
+                    return {x.id for x in ast.walk(val) if isinstance(x, ast.Name)}
+    return set()
+
+
 def check_stale(project: Project, rep):
     """KN-STALE: in bvn_cdf the sign of dk/hk is flipped for negative correlation; every quantity that enters the
     expansion afterwards must be computed from the flipped values. A name defined from hk/dk *before* the flip and used
@@ -404,8 +414,63 @@ def check_stale(project: Project, rep):
             node = cfg.node_of(n)
             if node is not None:
                 flips[n.targets[0].id] = node.id
-    if not flips:
+    # the same reflection written without re-binding: v_s = -v if r < 0 else v  (or np.where(r < 0, -v, v))
+    reflected = {}
+
+    def _neg_of(e):
+        return e.operand.id if isinstance(e, ast.UnaryOp) and isinstance(e.op, ast.USub) and isinstance(e.operand, ast.Name) else None
+
+    for n in ast.walk(f):
+        if not (isinstance(n, ast.Assign) and isinstance(n.targets[0], ast.Name)):
+            continue
+        v = n.value
+        arms = None
+        if isinstance(v, ast.IfExp):
+            arms = (v.body, v.orelse)
+        elif isinstance(v, ast.Call) and ast.unparse(v.func) in ("np.where", "numpy.where") and len(v.args) == 3:
+            arms = (v.args[1], v.args[2])
+        if arms is None:
+            continue
+        for a, b in (arms, arms[::-1]):
+            src = _neg_of(a)
+            if src and isinstance(b, ast.Name) and b.id == src and src != n.targets[0].id:
+                node = cfg.node_of(n)
+                if node is not None:
+                    reflected[src] = (n.targets[0].id, node.id)
+    if not flips and not reflected:
         rep.unmodelled("KN-STALE", fi, f, "sign flip of the standardised arguments for negative correlation not found")
+        return
+    n_refl = 0
+    for src, (new, flip_node) in reflected.items():
+        after = cfg.reachable_from(flip_node)
+        for nd in cfg.nodes:
+            a = nd.ast
+            if a is None or nd.id == flip_node or nd.id not in after or nd.kind not in ("stmt", "return", "test"):
+                continue
+            exprs = [a.test] if nd.kind == "test" and hasattr(a, "test") else (
+                [a.value] if hasattr(a, "value") and a.value is not None else [])
+            for ex in exprs:
+                for x in ast.walk(ex):
+                    if not (isinstance(x, ast.Name) and isinstance(x.ctx, ast.Load)):
+                        continue
+                    n_refl += 1
+                    stale_direct = x.id == src
+                    stale_derived = False
+                    if not stale_direct and x.id != new:
+                        for d in rd[nd.id].get(x.id, ()):
+                            if src in def_deps_of(cfg, d, x.id) and d not in after and flip_node in cfg.reachable_from(d):
+                                stale_derived = True
+                    if stale_direct or stale_derived:
+                        rep.refuted("KN-STALE", fi, a,
+                                    f"`{x.id}` {'is the un-reflected coordinate' if stale_direct else 'was computed from the un-reflected `' + src + '`'}"
+                                    f" but is used after `{new}` (= −{src} for negative correlation) took its place: this term of "
+                                    f"the expansion sees `{src}` while the others see `{new}` (wrong CDF for correlations in "
+                                    f"(−1, −0.925])",
+                                    construct=f"{fi.qualname}: stale {x.id} used after the reflection {new}",
+                                    failing_input="gaussian kernel with correlation −0.93")
+    if reflected and not flips:
+        rep.discharged("KN-STALE", fi, f, f"{n_refl} uses after the reflected coordinate(s) "
+                                          f"{sorted(v[0] for v in reflected.values())} were defined: none reads the un-reflected one")
         return
     # direct dependence of each definition on the flipped names (transitively through single assignments)
     def_deps = {}
